@@ -545,30 +545,53 @@ def check_choice(cx, chk):
 
 
 def check_at(cx, chk):
+    """Every failing path of a terminal matcher returns an error positioned at the offset of the attempt - the entry state's
+    start_index - or the entry state's recorded farther failure; read off the semantic summary (closures, helpers and
+    report_error itself inlined), so it does not matter through which local or helper the entry state reaches report_error."""
+    from .. import sem
+    from . import c11sem
     rt = cx.runtime
+    S = sem.Sem(cx, rt, inline=lambda p: p in rt.fns and "mir" in rt.fns[p] and not rt.fns[p].get("unsafe") and "{closure" not in p, max_leaves=2000)
+    P1 = mir.mk("param", 1)
+    START = mir.mk("field", P1, "start_index")
+    FAR = mir.mk("field", mir.mk("downcast", mir.mk("field", P1, "farthest_error"), "Some"), "0")
     n = 0
     for p, f in sorted(rt.fns.items()):
-        if "mir" not in f or "builtin_parsers" not in p:
+        if "mir" not in f or "builtin_parsers" not in p or "{closure" in p or f.get("kind") != "Fn":
+            continue
+        if "ParseState" not in (f.get("inputs") or [""])[0] if f.get("inputs") else False:
             continue
         b = cx.body(rt, p)
-        for i, t in b.calls():
-            if t["func"].get("indirect") or last(t["func"]["path"]) != "report_error":
+        try:
+            sm = S.summarize(p)
+        except sem.SemLimit as ex:
+            chk.violation("C10.at", "%s unsummarised" % short(p), "terminal matcher could not be summarised: %s" % ex, cx.site(b))
+            continue
+        if sm is None:
+            continue
+        tag = "%s report_error" % short(p)
+        bad = None
+        errs = 0
+        for l in list(sm.returns) + list(sm.loopbacks):
+            r = l.ret
+            if r is None or r[0] != "agg" or r[2] != "Err":
                 continue
-            n += 1
-            st = norm(b.expr_op(t["args"][0]))
-            src = st[2][0] if is_call(st, "clone") else st
-            tag = "%s report_error" % short(p)
-            okk = False
-            if b.is_closure:
-                # ok_or_else(|| state.clone().report_error(..)) : upvar must be the matcher's own state parameter
-                okk = src[0] == "upvar"
-            else:
-                okk = src == ("param", 1)
-            if okk:
-                chk.ok("C10.at", "%s@bb%d" % (tag, i), {"fn": short(p), "reported_on": mir.show(st)})
-            else:
-                chk.violation("C10.at", tag, "a terminal matcher reports its failure on %s, not on the unadvanced entry state: "
-                              "the error offset would not be the offset of the attempt" % mir.show(st), cx.site(b, i))
+            errs += 1
+            e = sem.get_field(r, "0")
+            if e == FAR:
+                continue
+            pos = sem.get_field(e, "position") if e[0] == "agg" else None
+            if pos is not None and (pos == START or c11sem.lin(pos) == {START: 1}):
+                continue
+            bad = e
+        if not errs:
+            continue
+        n += errs
+        if bad is None:
+            chk.ok("C10.at", tag, {"fn": short(p), "failing_paths": errs, "reported_at": "entry state's start_index (or its recorded farther failure)"})
+        else:
+            chk.violation("C10.at", tag, "a terminal matcher fails with the error %s: its position is not the offset of the attempt (the entry state's "
+                          "start_index), nor the entry state's recorded farther failure" % mir.show(bad)[:160], cx.site(b))
     chk.floor("C10.at", "terminal failure reports", n, 6)
 
 
